@@ -18,4 +18,10 @@ CONTROLS = [
     dict(name="code_quoted accepts the bare six backticks",
          edits=[(F, 'isinstance(s, str) and len(s) > 6 and s.startswith("```") and s.endswith("```")', 'isinstance(s, str) and len(s) > 5 and s.startswith("```") and s.endswith("```")')],
          expect=r"code_quoted/ensures"),
+    dict(name="'+' added to the characters that mark a typed default as an expression (repr(1e16) == '1e+16'; seed C01_c shape)",
+         edits=[("cdd/shared/defaults_utils.py", 'partial(contains, frozenset(("*", "^", "&", "|", "$", "@", "!"))),', 'partial(contains, frozenset(("*", "+", "^", "&", "|", "$", "@", "!"))),')],
+         expect=r"structural/_parse_out_default_and_doc/expression-markers-disjoint-from-number-repr"),
+    dict(name="'.' added to the expression markers (every float has one)",
+         edits=[("cdd/shared/defaults_utils.py", 'partial(contains, frozenset(("*", "^", "&", "|", "$", "@", "!"))),', 'partial(contains, frozenset(("*", ".", "^", "&", "|", "$", "@", "!"))),')],
+         expect=r"structural/_parse_out_default_and_doc/expression-markers-disjoint-from-number-repr"),
 ]
